@@ -87,6 +87,20 @@ func c11SameSchedule(a, b string) bool {
 	return ea == nil && eb == nil && reflect.DeepEqual(sa, sb)
 }
 
+// c11CameDue: a started cron fires by itself when a crontab comes due; the schedules are rare dates, but a
+// check may run at 03:07 on 1 January. Such a case cannot be decided (tasks appear on their own).
+func c11CameDue(c *Case, crontabs []string, start time.Time) {
+	for _, spec := range crontabs {
+		sch, err := hookconfig.ParseCrontab(spec)
+		if err != nil || sch == nil {
+			continue
+		}
+		if next := sch.Next(start.Add(-2 * time.Second)); !next.IsZero() && !next.After(time.Now().Add(2*time.Second)) {
+			c.Inconcl = fmt.Sprintf("crontab %q came due while the case ran", spec)
+		}
+	}
+}
+
 // c11Spell writes the class in an unusual but legal way; the kinds used are returned for the input
 // distribution. The result is calibrated by the caller.
 func c11Spell(rng *Rng, k c11Class) (string, []string) {
@@ -241,6 +255,8 @@ type c11Sm struct {
 	cancel   context.CancelFunc
 	crontabs []string // index+1 = model number
 	c        *Case
+	start    time.Time
+	started  bool
 }
 
 func newC11Sm(c *Case, crontabs []string, started bool) *c11Sm {
@@ -249,7 +265,7 @@ func newC11Sm(c *Case, crontabs []string, started bool) *c11Sm {
 	if started {
 		sm.Start()
 	}
-	m := &c11Sm{sm: sm, cancel: cancel, crontabs: crontabs, c: c}
+	m := &c11Sm{sm: sm, cancel: cancel, crontabs: crontabs, c: c, start: time.Now(), started: started}
 	decl := []string{}
 	for i, s := range crontabs {
 		v := 0
@@ -402,7 +418,12 @@ func (m *c11Sm) op(kind string, cn, id int) {
 	}
 }
 
-func (m *c11Sm) close() { m.cancel() }
+func (m *c11Sm) close() {
+	if m.started {
+		c11CameDue(m.c, m.crontabs, m.start)
+	}
+	m.cancel()
+}
 
 // ------------------------------------------------------------------ part B: hooks, controller, operator callback
 
@@ -469,6 +490,7 @@ type c11Sys struct {
 	queues   []string       // all queues (sorted by model number order of declaration)
 	enTasks  map[string]task.Task
 	started  bool
+	start    time.Time
 }
 
 func (s *c11Sys) cnum(crontab string) int {
@@ -544,7 +566,7 @@ func newC11Sys(r *Run, c *Case, hooks []c11Hook, crontabs []string) (*c11Sys, st
 	}
 	op.VerifC11CreateHookQueues()
 	s := &c11Sys{c: c, op: op, cancel: cancel, in: NewInterner(), crontabs: crontabs, hookIdx: map[string]int{},
-		idNum: map[string]int{}, enTasks: map[string]task.Task{}}
+		idNum: map[string]int{}, enTasks: map[string]task.Task{}, start: time.Now()}
 	decl := []string{}
 	for i := range crontabs {
 		decl = append(decl, fmt.Sprintf("%d:1", i+1))
@@ -745,6 +767,7 @@ func (s *c11Sys) wtick(cn int) int {
 }
 
 func (s *c11Sys) close() {
+	c11CameDue(s.c, s.crontabs, s.start)
 	s.op.ScheduleManager.Stop()
 	s.cancel()
 }
